@@ -6,6 +6,18 @@ PROPS = ['C%02d' % i for i in range(1, 21)]
 BASELINE = "cd /repo && /venv/bin/python -m pytest -ra -q -p no:cacheprovider --timeout=900 --continue-on-collection-errors"
 
 CLAIMED = {
+ 'C04': dict(
+    category='proof',
+    text="Rocq theorems C04_solution_is_demand_closure / C04_partial_solution_within_closure: for every catalogue (with form-qualified "
+         "names), request, rank and answer function, a run that reports success holds a value for exactly the lines of the inductively "
+         "defined demand closure Dem (required lines of requested forms, requested fields, lines read on the final stores by a member, "
+         "required lines of the forms of such reads), and its forms are exactly the requested forms plus the forms of such reads; a partial "
+         "solution never holds a line outside Dem. Second inductive invariant (well-founded scheduling reasons via ghost edges) over the real "
+         "control flow. Tie: model vs real solver traces; monitor recomputes the closure independently on real runs.",
+    design_ref='DESIGN.md §3, §4 C04',
+    note="Trusted as for C01 plus cat_wf (a form's lines are named form.line). Print Assumptions: closed under the global context.",
+    technique='Rocq inductive invariant with ghost scheduling reasons + differential correspondence',
+ ),
  'C01': dict(
     category='proof',
     text="Rocq theorems C01_no_silent_success / C01_failure_is_explained about the executable model of solver.py (coq/Solver.v), for every "
